@@ -741,8 +741,8 @@ GEO_SUFFIX = ["", "", "", "1", "99", "ю", "!", "пароль", "2020", "x", ".r
 
 def geometry_strings(ctx, dist):
     """The generated family: (a) for EVERY ordered pair of keys of each keyboard that are adjacent, or close but not adjacent
-    (two apart in a row, one row apart without overlap, two rows apart, the same key in the other shift state), in plain /
-    shifted / mixed shift state: walks of >= 4 keys that hold the step first, last and in the middle and are physical walks
+    (two apart in a row, one row apart without overlap, two rows apart, the same key in the other shift state), in all four
+    combinations of shift states: walks of >= 4 keys that hold the step first, last and in the middle and are physical walks
     everywhere else, steered to a second character class; (b) walks of 4-9 keys with 0-2 near misses, half of them crossing
     between the digit row and the first letter row in either direction, embedded between words / digits / symbols.
     -> [(string, family)]"""
@@ -753,10 +753,7 @@ def geometry_strings(ctx, dist):
         b = G.BOARDS[layout]
         for kind in ("adjacent", "near"):
             for a, c in G.all_pairs(b, kind):
-                combos = [(False, False), (True, True), (False, True), (True, False)]
-                if ctx.tier != "thorough":
-                    combos = [combos[0], rng.choice(combos[1:])]
-                for sa, sb in combos:
+                for sa, sb in [(False, False), (True, True), (False, True), (True, False)]:
                     for s in G.pair_strings(b, rng, a, c, sa, sb, per_pair=ctx.scale(3, 6)):
                         out.append((s, "geo-pair-%s-%s" % (kind, layout)))
     for i in range(ctx.scale(3000, 40000)):
